@@ -4,7 +4,11 @@ MIR symbolic execution of lexing::lex_hex_number on '0x' + D symbolic hex digits
 trailing non-alphanumeric char). On every path: no panic (MIR asserts, unwrap), and when a token is
 produced 1 <= next_index <= len, and for D <= 16 a token IS produced with next_index == D + 2.
 
-usage: python3-vt c01hex.py <mir-dump> <D> <trailing 0|1> <repo-src-dir>
+With `mixed`, each of the D positions is a hex digit or any other printable ASCII character (forked): a token is produced iff
+the literal starts with at least one hex digit and the run of hex digits is not followed by a letter or digit, and it
+covers exactly `0x` + that run.
+
+usage: python3-vt c01hex.py <mir-dump> <D> <trailing 0|1> <repo-src-dir> [mixed]
 """
 import json
 import os
@@ -18,7 +22,7 @@ from models import MODELS, VecObj, SliceRef
 from adts import load_enums
 
 
-def run(mir_path, D, trailing, src_dir):
+def run(mir_path, D, trailing, src_dir, mixed=False):
     raw = load_functions(mir_path)
     enums = load_enums(src_dir)
     if "lex_hex_number" not in raw:
@@ -37,8 +41,25 @@ def run(mir_path, D, trailing, src_dir):
     def body(ctx):
         ctx.assume(chars[0] == ord("0"))
         ctx.assume(chars[1] == ord("x"))
-        for c in chars[2:2 + D]:
-            ctx.assume(hexd(c))
+        run_len = D
+        if mixed:
+            # every position after `0x` is a hex digit or some other printable ASCII character (decided by forking): the token
+            # must cover exactly `0x` + the leading run of hex digits
+            run_len, broken = 0, False
+            for c in chars[2:2 + D]:
+                ctx.assume(z3.And(z3.UGE(c, 32), z3.ULE(c, 126)))
+                if ctx.branch(hexd(c)):
+                    if not broken:
+                        run_len += 1
+                elif not broken:
+                    broken = True
+                    # a literal glued to a letter or digit (`0x1g`) is a word, not a number
+                    alnum = z3.Or(z3.And(z3.UGE(c, 48), z3.ULE(c, 57)), z3.And(z3.UGE(c, 65), z3.ULE(c, 90)), z3.And(z3.UGE(c, 97), z3.ULE(c, 122)))
+                    if ctx.branch(alnum):
+                        run_len = 0
+        else:
+            for c in chars[2:2 + D]:
+                ctx.assume(hexd(c))
         if trailing:
             c = chars[-1]
             # one more char that is neither a hex digit nor alphanumeric (ASCII punctuation / blank)
@@ -55,16 +76,19 @@ def run(mir_path, D, trailing, src_dir):
             result["panics"].append({"msg": msg, "where": where, "text": text(model) if model is not None else None})
         if out is None:
             return
-        if out.variant == "Some":
+        if out.variant == "Some" and mixed and run_len == 0:
+            ok, model = ctx.valid(z3.BoolVal(False))
+            result["violations"].append({"what": "a text that is not `0x` + hex digits followed by a non-alphanumeric character was lexed as a hex number", "text": text(model) if model is not None else None})
+        elif out.variant == "Some":
             ft = out.fields[0]  # FoundToken { next_index, token }
             ni = ft.fields[0]
             claim = z3.And(z3.UGE(ni.t, 1), z3.ULE(ni.t, L))
             if D <= 16:
-                claim = z3.And(claim, ni.t == D + 2)
+                claim = z3.And(claim, ni.t == run_len + 2, z3.BoolVal(run_len >= 1))
             ok, model = ctx.valid(claim)
             if not ok:
                 result["violations"].append({"what": "next_index out of range or not the whole literal", "text": text(model)})
-        elif D <= 16:
+        elif D <= 16 and run_len >= 1:
             ok, model = ctx.valid(z3.BoolVal(False))
             result["violations"].append({"what": "a hex literal that fits u64 was not lexed as a number", "text": text(model) if model is not None else None})
 
@@ -79,7 +103,7 @@ def run(mir_path, D, trailing, src_dir):
 
 if __name__ == "__main__":
     try:
-        r = run(sys.argv[1], int(sys.argv[2]), int(sys.argv[3]), sys.argv[4])
+        r = run(sys.argv[1], int(sys.argv[2]), int(sys.argv[3]), sys.argv[4], len(sys.argv) > 5 and sys.argv[5] == "mixed")
         r["status"] = "violated" if (r["violations"] or r["panics"]) else "holds"
     except Unsupported as e:
         r = {"status": "unsupported", "why": str(e)}
